@@ -157,6 +157,8 @@ impl Prop for C06 {
             3 => gen::list_src(gen::key_ascii(), Just(crate::common::Blob::Lit(vec![])).boxed(), 300),
             2 => gen::list_src(gen::key_tiny(), Just(crate::common::Blob::Lit(vec![])).boxed(), 120),
             1 => gen::list_src(gen::key_half_block(), Just(crate::common::Blob::Lit(vec![])).boxed(), 40),
+            2 => gen::list_src(gen::key_path(), Just(crate::common::Blob::Lit(vec![])).boxed(), 120),
+            1 => gen::list_src(gen::key_any(), Just(crate::common::Blob::Lit(vec![])).boxed(), 120),
             2 => gen::counter_src(300),
         ];
         let source = (0u8..4, vec(any::<u8>(), 1..40), gen::wconf_light()).prop_map(|(density, mask, conf)| SourceSpec { density, mask, conf });
